@@ -466,7 +466,7 @@ def run_transformers(ctx: Ctx) -> None:
         ssz, tsz = SIZES[D]
         gsz = (2, 2) if D == 2 else (2, 2, 2)
         for a_g in (True, False):
-            for combo in ("all-distinct", "defaults", "source-only", "target-only", "flip"):
+            for combo in ("all-distinct", "defaults", "source-only", "target-only", "flip", "scalar-padding-twice"):
                 def th(D=D, ssz=ssz, tsz=tsz, gsz=gsz, a_g=a_g, combo=combo):
                     env = SEnv(ctx)
                     it = env.it
@@ -480,9 +480,11 @@ def run_transformers(ctx: Ctx) -> None:
                     X = compose(G.i2w(), G.cube2i(a_g))
                     Tw = compose(X, compose(Ab, _inverse_affine(X)))
                     kw = {}
-                    if combo == "all-distinct" or combo == "flip":
+                    if combo in ("all-distinct", "flip", "scalar-padding-twice"):
                         tg, src = Geo(env, "t", tsz, not a_g), Geo(env, "a", ssz, a_g if D == 2 else not a_g)
                         kw = {"target": tg.obj, "source": src.obj}
+                        if combo == "scalar-padding-twice":
+                            kw["padding"] = 5  # constant outside value: c + sample(image - c, zeros)
                         if combo == "flip":
                             kw["flip_coords"] = True
                     elif combo == "defaults":
@@ -504,6 +506,7 @@ def run_transformers(ctx: Ctx) -> None:
                     IT = prog.cls(T, "ImageTransformer")
                     w = it.new(IT, t, **kw)
                     data = STensor.symbols("I", [1, 1] + list(src.shape))
+                    data0 = data.clone()
                     del symt.GRID_SAMPLE_CALLS[:]
                     out = it.call_value(w, [data], {})
                     calls = list(symt.GRID_SAMPLE_CALLS)
@@ -515,6 +518,14 @@ def run_transformers(ctx: Ctx) -> None:
                         return False, msg
                     if list(out.shape) != [1, 1] + list(tg.shape):
                         return False, f"output shape {tuple(out.shape)} is not the target grid's"
+                    if combo == "scalar-padding-twice":
+                        # the warp is a function of (transform, image): the image handed in is still the caller's, and warping it again
+                        # gives the same result (the constant outside value is subtracted from a copy, not from the caller's tensor)
+                        if not teq(data, data0):
+                            return False, "ImageTransformer(padding=5)(image) changed the image it was given"
+                        out2 = it.call_value(w, [data], {})
+                        if not teq(out2, out) or not teq(data, data0):
+                            return False, "ImageTransformer(padding=5) applied a second time to the same image gives another result"
                     return True, ""
                 _guard(ctx, "T67.warp", f"D={D}:ac={a_g}:{combo}", fI, f"ImageTransformer D={D} transform-grid align_corners={a_g} {combo}", th)
 
